@@ -253,12 +253,37 @@ def run_lin(case):
             r_[...] = np.nan
         # determinism over histories
         outs = [Ax.copy() if np.all(np.isfinite(Ax)) else Ax, np.asarray(A(x.copy()))]
+        ref_first = outs[0]
         H = A.H
         N = A.N
         outs.append(np.asarray(A(x)))
         yy = crandn(rng, tuple(A.oshape), cdt)
         h1 = np.asarray(H(yy))
         n1 = np.asarray(N(x))
+        outs.append(np.asarray(A(x)))
+        # operators derived from A (scalings on either side, sums, differences, compositions
+        # with a scaling / with itself, nested scalings) are new objects: building and using
+        # them leaves A as it was
+        try:
+            B1 = A * 3
+            derived = [B1, B1 * 2, 0.5 * A, (2 * A) * 1.5, A + A, A - 2 * A, -A, A * (1 + 1j)]
+            if list(A.ishape) == list(A.oshape):
+                derived += [A * A, (A * 2) * (3 * A)]
+            for D_ in derived:
+                D_(x)
+            B2 = B1 * 3                      # a derived operator derived from once more
+            B2(x)
+            STATE.peak = 0.0
+            b1x = np.asarray(B1(x))
+            dev_ = nrm(b1x - 3 * np.asarray(ref_first))
+            if not dev_ <= max(1e-9, 100 * dtol) * (nrm(b1x) + 3 * nrm(ref_first) + STATE.peak
+                                                    + nrm(x)):
+                return violated(sig, "B = A * 3 no longer acts as 3 A after B * 3 was built "
+                                "from it (||B x - 3 A x|| = %.3g): a derived operator changed "
+                                "the operator it was derived from" % dev_, wit,
+                                mech="derived-corrupts-base")
+        except Exception:
+            pass
         outs.append(np.asarray(A(x)))
         h2 = np.asarray(A.H(yy))
         n2 = np.asarray(A.N(x))
